@@ -161,6 +161,7 @@ def run_nrt(spec, acc):
             for tc in tclocks:
                 try:
                     tc.stop()
+                    type(tc)._all.discard(tc)   # NRT stop() keeps them alive
                 except Exception:
                     pass
         if err is not None:
@@ -339,6 +340,20 @@ def run_nrt(spec, acc):
         if framing:
             viol(f'C07/nrt/raw-framing/{framing}', {'raw_bytes': len(raw)})
             continue
+        if i % 25 == 0:
+            # the file scsynth -N reads is exactly .raw
+            import os, tempfile
+            fd, path = tempfile.mkstemp(suffix='.osc')
+            os.close(fd)
+            try:
+                score.write(path)
+                acc.count('nrt_written_files_compared')
+                if open(path, 'rb').read() != raw:
+                    viol('C07/nrt/written-file-differs-from-raw', {})
+            except Exception as e:
+                viol(f'C07/nrt/write-raises/{exc_key(e)}', {'tb': short_tb(e)})
+            finally:
+                os.unlink(path)
         if len(chunks) != len(lst):
             viol('C07/nrt/raw-differs-from-list/entry-count',
                  {'raw_entries': len(chunks), 'list_entries': len(lst)})
